@@ -52,9 +52,9 @@ PROPS["C14"] = {
             "mounts": [("c14_timed.rs", "syscall/unix/mod.rs")],
             "harnesses": ["c14_sleep_all_secs", "c14_usleep_all_micros", "c14_nanosleep_all_timespec",
                           "c14_poll_timeout_le_64ms", "c14_poll_ready_returns_result", "c14_select_timeout_unit", "c14_select_timeout_le_64ms",
-                          "c14_select_invalid_timeval", "c14_cond_timedwait_deadline",
+                          "c14_select_invalid_timeval", "c14_cond_timedwait_deadline", "c14_cond_timedwait_far_deadline_is_in_the_future",
                           "c14_select_any_timeval_first_slices", "c14_poll_any_timeout_first_slices"],
-            "timeout": 300,
+            "timeout": 600,
         },
         {
             # the layer the hooked calls wait in: EventLoop::timed_wait_just over the mio model (time passes inside the OS poll)
@@ -217,7 +217,7 @@ PROPS["C20"] = {
         {
             "mounts": [("c20_selector.rs", "net/selector/mod.rs")],
             "harnesses": ["c20_token_roundtrip_read", "c20_token_roundtrip_write", "c20_readiness_wakes_only_the_waiter", "c20_remaining_waiter_keeps_its_token"],
-            "timeout": 300,
+            "timeout": 600,
         },
     ],
 }
@@ -255,7 +255,7 @@ PROPS["C25"] = {
     "groups": [
         {
             "mounts": [("c25_local.rs", "coroutine/local.rs")],
-            "harnesses": ["c25_map_history_3", "c25_release_on_drop"],
+            "harnesses": ["c25_map_history_3", "c25_release_on_drop", "c25_zero_sized_values_are_released_too"],
             "thorough_harnesses": ["c25_map_history_4"],
             "timeout": 600, "timeout_thorough": 3000,
         },
